@@ -1263,13 +1263,14 @@ pub fn run_check(property: &str, tier: &str) -> i32 {
     ev.cov("determinism_selftest", det);
     ev.cov("runs_per_hour", json!((sum.runs as f64 / wall * 3600.0) as u64));
     ev.cov("simulated_time", json!("no clock involved; logical steps = external command invocations"));
-    ev.cov("components", json!({"real": "libcnb-test (TestRunner, TestContext, ContainerContext, app, util, docker/pack command builders), tempfile, fs_extra, std::process", "stub": "docker and pack (stubcli: argv log, resource state, planned failures), the integration test's own closures (scripted)"}));
+    ev.cov("components", json!({"real": "libcnb-test (TestRunner, TestContext, ContainerContext, app, util, docker/pack command builders), tempfile, fs_extra, std::process", "stub": "docker and pack (stubcli: argv log, resource state incl. image ids, listing, planned failures), cargo/musl-gcc wrappers for the musl triple, the integration test's own closures (scripted, one test thread per independent build)"}));
     ev.cov("known_findings_seen", json!(known_hits));
     ev.assumptions = if property == "C16" {
         vec![
-            "cleanup commands themselves are never made to fail (a failing docker rm inside Drop while unwinding aborts by design)".into(),
-            "modern CLI semantics: rm/rmi/volume remove --force of a missing object succeed".into(),
-            "'created by the run' is judged on the stand-ins' resource state: pre-seeded foreign resources must survive".into(),
+            "of the cleanup commands only `docker rmi` is ever made to fail (scenario rmi mode: older CLI on a missing image, daemon refusal); a failing `docker rm` inside Drop while unwinding aborts by design".into(),
+            "`rm` / `volume remove --force` of a missing object succeed (current CLI semantics)".into(),
+            "'created by the run' is judged on the stand-ins' resource state and on what each command actually deleted: pre-seeded foreign resources (carrying the libcnbtest_ prefix) must survive".into(),
+            "cargo and musl-gcc on the scenario's PATH are stand-ins serving the default musl triple from the installed gnu target".into(),
         ]
     } else {
         vec![
